@@ -575,6 +575,73 @@ fn shape_class(t: &Ty) -> &'static str {
     }
 }
 
+/// User types whose names are keywords of a target language: the declaration and every reference must spell the same
+/// name. Judged on the text: every maximal run of identifier characters and backticks that contains the type's name is
+/// either the declared spelling or that spelling without its escaping backticks.
+fn keyword_named_types() -> Report {
+    let mut rep = Report::new();
+    let names = ["Type", "Protocol", "Any"];
+    let src = "#[typeshare]\npub struct Type { pub a: u8 }\n#[typeshare]\npub struct Protocol<T> { pub t: T, pub list: Vec<T> }\n#[typeshare]\npub enum Any { First, Second }\n#[typeshare]\npub struct Holder { pub a: Type, pub b: Vec<Type>, pub c: Option<Protocol<Type>>, pub d: HashMap<String, Any>, pub e: [Type; 2], pub f: Protocol<Vec<Any>> }\n#[typeshare]\npub type Shorthand = Protocol<String>;\n#[typeshare]\npub struct Wrapped(pub Type);\n#[typeshare]\n#[serde(tag = \"t\", content = \"c\")]\npub enum Choice { Plain(Type), Nested(Option<Protocol<Any>>), Fields { x: Type, y: Vec<Any> } }\n";
+    let files = vec![SrcFile { path: "src/lib.rs".into(), source: src.into() }];
+    for lang in [LangId::Swift, LangId::Kotlin] {
+        for prefix in ["", "OP", "Core"] {
+            let mut cfg = LangCfg::basic(lang);
+            cfg.prefix = prefix.into();
+            let o = crate::sut::run_lib(&files, lang, &cfg, false, &[]);
+            rep.eval(1);
+            rep.cell(format!("keyword-named-types|{}|prefix={}", lang.name(), !prefix.is_empty()));
+            let text = match o.single() {
+                Some(t) => t,
+                None => {
+                    rep.inconclusive("keyword-named-types-not-generated", serde_json::json!({"language": lang.name(), "outcome": o.describe()}));
+                    continue;
+                }
+            };
+            // comments out
+            let code: String = text.lines().filter(|l| !l.trim_start().starts_with("//") && !l.trim_start().starts_with("*") && !l.trim_start().starts_with("/*")).collect::<Vec<_>>().join("\n");
+            let mut runs: std::collections::BTreeSet<String> = Default::default();
+            let mut cur = String::new();
+            for ch in code.chars().chain(std::iter::once(' ')) {
+                if ch.is_alphanumeric() || ch == '_' || ch == '`' {
+                    cur.push(ch);
+                } else if !cur.is_empty() {
+                    runs.insert(std::mem::take(&mut cur));
+                }
+            }
+            for name in names {
+                // the declared spelling: the run that follows a declaration keyword
+                let declared: Vec<String> = ["struct ", "class ", "enum ", "typealias ", "object "]
+                    .iter()
+                    .flat_map(|kw| code.match_indices(kw).map(|(i, _)| code[i + kw.len()..].chars().take_while(|c| c.is_alphanumeric() || *c == '_' || *c == '`').collect::<String>()).collect::<Vec<_>>())
+                    .filter(|d| d.replace('`', "") == format!("{prefix}{name}"))
+                    .collect();
+                rep.count("keyword_named_type_declarations_seen", declared.len() as u64);
+                let Some(decl) = declared.first() else {
+                    rep.violate(format!("C05|{}|keyword-named-type|declaration-missing", lang.name()), format!("{}: no declaration of `{prefix}{name}` found for the user type `{name}`", lang.name()), serde_json::json!({"language": lang.name(), "prefix": prefix, "source": src, "output": text}));
+                    continue;
+                };
+                let bare = decl.replace('`', "");
+                for r in runs.iter().filter(|r| r.contains(name)) {
+                    // longer identifiers that merely contain the name (coding keys, helper types of the enum) are other names
+                    let stripped = r.replace('`', "");
+                    if stripped != format!("{prefix}{name}") && stripped != name {
+                        continue;
+                    }
+                    rep.count("keyword_named_type_spellings_checked", 1);
+                    if r != decl && *r != bare {
+                        rep.violate(
+                            format!("C05|{}|keyword-named-type|reference-spelled-differently|prefix={}", lang.name(), !prefix.is_empty()),
+                            format!("{}: user type `{name}` is declared as `{decl}` but also written as `{r}`", lang.name()),
+                            serde_json::json!({"language": lang.name(), "prefix": prefix, "declared": decl, "spelling": r, "source": src, "output": text}),
+                        );
+                    }
+                }
+            }
+        }
+    }
+    rep
+}
+
 pub fn run(ctx: &Ctx) -> (Spec, Report) {
     let exh = enumerate_depth2();
     let per = 40usize;
@@ -691,9 +758,11 @@ pub fn run(ctx: &Ctx) -> (Spec, Report) {
         },
         judge,
     );
+    let mut rep = rep;
+    rep.merge(keyword_named_types());
     let spec = Spec {
         level: "exploration",
-        rule: format!("all {} type expressions of depth <= 2 over {{14 primitives, (), user type, generic parameter, generic instance}} closed under Vec, [T;3], &[T], Option, &T, 8 smart pointers, generic user type and HashMap with 7 key types (exhaustive, {} programs), plus random trees of depth <= 5; positions field / newtype payload / alias target / const type (a sixth of the fields and payloads given through `serialized_as` on an opaque Rust type) / generic alias, generic newtype struct and generic tagged-enum payload whose target mentions the item's own parameters (TS, Kotlin, Swift, Scala); random prefix and type_mappings tables (user types and generic bases for all backends, container instances for TS/Go/Python), path qualification varied; each use site is parsed back into a tree and compared with an independent reference translation under per-language JSON-category and integer-range tables; distinct = (language, position, depth, outer constructor)", exh.len(), n_exh),
+        rule: format!("all {} type expressions of depth <= 2 over {{14 primitives, (), user type, generic parameter, generic instance}} closed under Vec, [T;3], &[T], Option, &T, 8 smart pointers, generic user type and HashMap with 7 key types (exhaustive, {} programs), plus random trees of depth <= 5; positions field / newtype payload / alias target / const type (a sixth of the fields and payloads given through `serialized_as` on an opaque Rust type) / generic alias, generic newtype struct and generic tagged-enum payload whose target mentions the item's own parameters (TS, Kotlin, Swift, Scala); random prefix and type_mappings tables (user types and generic bases for all backends, container instances for TS/Go/Python), path qualification varied; each use site is parsed back into a tree and compared with an independent reference translation under per-language JSON-category and integer-range tables; plus user types whose own names are Swift keywords (Type, Protocol, Any) referred to from 11 positions under 3 prefixes in Swift and Kotlin, where every spelling of the name in the output must be the declared one; distinct = (language, position, depth, outer constructor)", exh.len(), n_exh),
         assumptions: vec![
             "TypeScript has no nullable form at type level: an Option nested inside a container may translate to the bare element type".into(),
             "Go `int` and `uint` are taken at their guaranteed 32 bits; Python int is unbounded".into(),
